@@ -1,6 +1,6 @@
 /-
-  Model/Layout — C02: type trees, `Pool::layout_of`, `is_reference_type`,
-  `needs_clone`, and the independently written offset loops of the LIR
+  Model/Layout — C02: type trees, `Pool::layout_of`, `is_reference_type`
+  (generated: `RotoV.Gen.LayoutDecide`), `needs_clone`, and the independently written offset loops of the LIR
   lowerer, each modelled AS WRITTEN on top of the *generated* layout
   arithmetic (`RotoV.Gen.LayoutGen`, regenerated from
   `src/runtime/layout.rs` on every run).
@@ -14,6 +14,7 @@
 import RotoV.Model.RustStd
 import RotoV.Generated.LayoutGen
 import RotoV.Generated.LayoutLoops
+import RotoV.Generated.LayoutDecide
 
 namespace RotoV.Layout
 open RotoV
@@ -142,20 +143,29 @@ def enumLayout : Vars → Option Layout → Option Layout
         | some l => l.union b.finish))
 end
 
-/-- `Pool::is_reference_type` (src/mir/ty.rs). -/
+/-- what `self.get(ty)` is matched against by the small decision functions:
+    the kind of a type tree (`Ty::Runtime(_)` for both sorts of registered
+    type) -/
+def Ty.kind : Ty → LayoutKind.Kind
+  | .unit => .unit
+  | .never => .never
+  | .record _ => .record
+  | .enum _ => .enum
+  | .leaf .int _ _ => .int
+  | .leaf .float _ _ => .float
+  | .leaf .string _ _ => .string
+  | .leaf .copyRef _ _ => .copyRef
+  | .leaf .list _ _ => .list
+  | .leaf .rtCopy _ _ => .runtime
+  | .leaf .rtClone _ _ => .runtime
+
+/-- `Pool::is_reference_type` (src/mir/ty.rs): the GENERATED function
+    (`RotoV.Gen.LayoutDecide.is_reference_type`, re-translated from the source
+    on every run) applied to this type's kind and its `layout_of`.  A
+    registered type is a reference type whatever its size; every other
+    zero-sized type is not. -/
 def isReferenceType (t : Ty) : Option Bool :=
-  match layoutOf t with
-  | none => none
-  | some l =>
-    if l.get_size = 0 then some false
-    else match t with
-      | .never => none
-      | .record _ => some true
-      | .enum _ => some true
-      | .leaf .string _ _ | .leaf .copyRef _ _ | .leaf .list _ _
-      | .leaf .rtCopy _ _ | .leaf .rtClone _ _ => some true
-      | .unit => some false
-      | .leaf .int _ _ | .leaf .float _ _ => some false
+  Gen.LayoutDecide.is_reference_type t.kind (layoutOf t)
 
 mutual
 /-- `Lowerer::needs_clone` (clones.rs); `needs_drop` (drops.rs) has the same
